@@ -74,7 +74,7 @@ GATE2 = {
                ("InvalidInput", r" Gt c:65536\)", True, "row limit (C20)")],
     "Update": [("NotFound", r"discr\(std::collections::BTreeMap::<K, V, A>::get\(&\*p4,&p1\.table_name\)\)", ("==", 0), "unknown table"),
                ("InvalidInput", r"Table::has_column\(", False, "unknown column (assignment)"),
-               ("InvalidInput", r"Column::is_primary_key", True, "assignment to a primary key column"),
+               ("AlreadyExists", r"HashSet::<T, S, A>::contains\(", True, "duplicate key after assigning key columns"),
                ("InvalidInput", r"Column::is_valid_value", False, "invalid value"),
                ("InvalidInput", r"Table::has_column\(", False, "unknown column (condition)")],
 }
@@ -132,8 +132,14 @@ def info_key(ctx, rule="INFO-KEY"):
             # the key test alone must decide: it is the innermost guard of the error
             via_err = any((S.bool_facts_at(e) or [("", None, 0)])[-1][1] is True and "Column::is_primary_key" in S.bool_facts_at(e)[-1][0] for e in errs)
             via_map = any(re.search(r"BTreeMap::<K, V, A>::(insert|contains_key)$", cname(prog, t)) and "Vec<internal::value::Value>" in (t.get("written") or "") for b, t in f.calls())
-            ok = via_err or via_map
-            how = "key test leads to an error" if via_err else ("rows keyed by the primary-key vector in a BTreeMap" if via_map else "")
+            # or: duplicate test on a set keyed by the key vector (error edge) plus a re-sort of the rows by the key vector
+            dup = any(has_fact(S, e, r"HashSet::<T, S, A>::contains\(", True) for e in errs) and any(
+                re.search(r"HashSet::<T, S, A>::insert$", cname(prog, t)) and "Vec<internal::value::Value>" in (t.get("written") or "") for b, t in f.calls())
+            srt = [t for b, t in f.calls() if re.search(r"<impl \[T\]>::sort_by(_cached)?_key$", t.get("callee") or "") and "Vec<internal::value::Value>" in (t.get("written") or "")]
+            via_set = dup and len(srt) == 1
+            ok = via_err or via_map or via_set
+            how = "key test leads to an error" if via_err else ("rows keyed by the primary-key vector in a BTreeMap" if via_map else (
+                "duplicate test on the key vectors + re-sort by key" if via_set else ""))
         ctx.check(ok, rule, short(f.name), how, "%s creates cells and rewrites the table without consulting the primary key definition: assignments to key columns can "
                   "produce duplicate or out-of-order keys" % short(f.name), f.loc(), fn=f.name, key="%s|%s" % (rule, short(f.name)))
     ctx.floor(rule, "functions that create cells and write rows", n, 2)
